@@ -24,12 +24,23 @@ use std::io::Write;
 pub const SIMPLE_NAMES: &[&str] = &[
     "x", "y", "s1", "_tmp", "$auto$1", "a.b", "foo@3", "<=", "+", "state_next", "A", "Z9", "~q", "%r", "k?", "n!", "a^b", "a&b", "u/v", "p*q", "e=f", "o-o",
     "top.cpu.pc", "__n6@0", "BitVec2", "bv", "lets", "pusher",
+    // simple symbols that begin with a literal / keyword / theory name of the reader
+    "true_x", "falsey", "trueish", "true2", "false.0", "Boolean", "letx", "let_1", "_x", "as_if", "notx", "ite2", "BitVecs", "exit_code", "pop_", "store1", "const_",
+    "bvadd_x", "select2", "Array1", "extract_lo", "zero_extend_", "x_true", "x.false",
 ];
 pub const QUOTED_NAMES: &[&str] = &[
     "a b", "1abc", "x[3]", "m:n", "#b01", "a(b)", "x;y", "\"q\"", "", " ", "a\tb", "a\nb", "$auto$async2sync.cc:262:execute$65@20", "mem[0][1]", "a,b", "{x}", "it's",
     "0", "12", "#x0f", "(", ")", "a#", "`t`",
+    // quoted names with spaces around / between words that are literals or keywords when read alone
+    "true x", "x true", "let me", "a  b", " lead", "trail ", "not a", "false ", " true", "( x )", "_ BitVec 8", "1 2",
 ];
-pub const NONASCII_NAMES: &[&str] = &["π", "größe", "a→b", "名前"];
+// multi-byte UTF-8.  The second row: every character is above U+00FF and its LOW BYTE is an ASCII letter, digit or allowed punctuation
+// (a quoting rule that looks at `c as u8` takes them for simple symbols); the third row: the low byte is not allowed / a digit in first position
+pub const NONASCII_NAMES: &[&str] = &[
+    "π", "größe", "a→b", "名前", "entrée", "Ωmega", "x²", "naïve_1",
+    "сумма", "Łukasz", "idő", "中", "a中b", "Őz", "ŁA", "šx", "x𝔸", "\u{141}\u{142}\u{143}",
+    "вход", "флаг", "такт", "ж", "\u{130}x", "\u{120}", "a\u{10a}b", "\u{1f600}", "日本語", "\u{e9}\u{301}",
+];
 pub const RESERVED_NAMES: &[&str] = &[
     "let", "push", "pop", "exit", "_", "!", "as", "par", "assert", "forall", "exists", "match", "check-sat", "reset", "echo", "BINARY", "NUMERAL", "define-fun", "get-value",
     "set-logic",
@@ -46,7 +57,7 @@ pub fn name_class(n: &str) -> &'static str {
         "theory"
     } else if n.starts_with('.') || n.starts_with('@') {
         "solver-reserved"
-    } else if NONASCII_NAMES.contains(&n) {
+    } else if NONASCII_NAMES.contains(&n) || !n.is_ascii() {
         "nonascii"
     } else if QUOTED_NAMES.contains(&n) {
         "needs-quoting"
@@ -98,6 +109,29 @@ impl<'a> Gen<'a> {
                 if !self.used.iter().any(|(n, _)| *n == cand) {
                     return cand;
                 }
+            }
+        }
+        // random multi-byte names: code point = page * 256 + low byte, every low byte (letters, digits, punctuation, controls, |, \) on pages
+        // 1 .. 7, 0x4E .. 0x9D, 0xE0 .. 0xFF and above the BMP; sometimes mixed with ASCII
+        if !self.plain_names && self.rng.chance(1, 12) {
+            let mut cand = String::new();
+            for _ in 0..(1 + self.rng.below(3)) {
+                let low = if self.rng.chance(2, 3) { *self.rng.pick(&[0x41u32, 0x5a, 0x61, 0x7a, 0x30, 0x39, 0x2d, 0x5f, 0x2e, 0x24, 0x3c, 0x40]) } else { self.rng.below(256) as u32 };
+                let page = match self.rng.below(4) {
+                    0 => 1 + self.rng.below(7) as u32,
+                    1 => 0x4e + self.rng.below(0x50) as u32,
+                    2 => 0xe0 + self.rng.below(0x20) as u32,
+                    _ => 0x100 + self.rng.below(0xf00) as u32,
+                };
+                if let Some(c) = char::from_u32(page * 256 + low) {
+                    cand.push(c);
+                }
+                if self.rng.chance(1, 4) {
+                    cand.push(*self.rng.pick(&['a', 'Z', '0', '_', '.']));
+                }
+            }
+            if !cand.is_empty() && !self.used.iter().any(|(n, _)| *n == cand) {
+                return cand;
             }
         }
         let base: &str = if self.plain_names {
